@@ -324,7 +324,8 @@ class _FactorTypeMap(_FactorTypeMapAbstractClass):
     def _yield_factor_identifier_local(self, active_identifier):
         assert len(active_identifier) == 2
         assert active_identifier[0] < setting.number_of_root_nodes
-        for target_leaf_node_number_list in self._map[active_identifier[1]]:
+        # A point mass that does not take part in any local factor of this type has no factor (as in the non-local case).
+        for target_leaf_node_number_list in self._map.get(active_identifier[1], ()):
             yield tuple((active_identifier[0], target_leaf_node) for target_leaf_node in target_leaf_node_number_list)
 
     def _yield_factor_identifier_non_local(self, active_identifier):
